@@ -77,7 +77,7 @@ CHECKS = [
      BASE_NOTE + "scipy.stats.norm.ppf/cdf and x**1.5 are oracles (monotone cdf/ppf is a hypothesis of the ordering/nesting "
      "theorems; a lawful instance is exhibited); np.nanquantile(method='linear') by its documented formula; exactly AT the "
      "pole (1 - a*(z0+z) = 0) the model's rational division gives 0 where floats give +-inf - no theorem is stated there and "
-     "the harness would report a disagreement; the vectorised form is checked against per-component runs.",
+     "the harness would report a disagreement; the whole-array function (reshape / stack / nanquantile(axis=0) / NumPy's moveaxis / final reshape; bc/bca: flatten, per-component loop, reshape) is modelled statement by statement on row-major N-d arrays (SA/Model/NdArray.lean, BootstrapVec.lean) and C13_vec_quantile / C13_vec_bc prove for every metric shape Y and alpha shape A that the result has shape Y++A++[2] and entry [y..,a..,k] is the one-component limit of column y at alpha[a..] (per-component independence, error branches, kernel-checked examples that the swapaxes / dropped-moveaxis variants differ); op bootcivec compares the whole array on every case; bc/bca with a vector alpha is outside the model.",
      "Lean 4 proof about a hand-written model + differential correspondence check", "DESIGN.md §5 C13"),
  chk("C19",
      "Lean theorems: FraudScores.make_eq / C19_refines (whenever construction succeeds the object IS Scores.make genuines "
@@ -174,11 +174,13 @@ CHECKS = [
      "slack-free FNR statement is REFUTED in the exact model (C06_fnr_side_statement_false: excess ~1e-11 < xtol), which is why "
      "the spec is evaluated with eps = 1e-9. Tied to /repo by comparing (t, e) with the model on tie-free data and evaluating "
      "rangeOK / crossingOK / zeroOK on the implementation's own matrix at its returned threshold on every case.",
-     BASE_NOTE + "PARTIAL: the data-dependent bound on delta that connects the crossing bracket to the FNR sandwich is not "
-     "formalised; the FNR side is evaluated on every sampled case; affine equivariance is proved (C06_affine), negation "
+     BASE_NOTE + "The FNR side on the bisection path is proved with an explicit data-dependent slack (C06_fnr_side_bisect: |FNR(t) - e| <= 1/N_pos + "
+     "xtol*(1 + N_neg*maxGap(neg)/(N_pos*minGap(pos))) + sentinel steps); the slack-free statement is refuted in the model and, at populations of about 1e8, "
+     "on the real code too (open known finding eer/crossing/within-proved-slack: a failing case inside the proved slack is printed as KNOWN-FINDING, anything "
+     "beyond it is a violation; generated huge-population cases use bounded gap ratios, where the proved slack is below the spec's 1e-9); affine equivariance is proved (C06_affine), negation "
      "equivariance is refuted in exact form and proved in conditional form (C08_negate_eer_partial / _value / _shortcut). With ties the EER value is "
      "not compared with the exact model. np.isclose by its formula; bisection with fuel 64.",
-     "Lean 4 proof (partial) about a hand-written model + differential correspondence check", "DESIGN.md §5 C06"),
+     "Lean 4 proof about a hand-written model (FNR side with an explicit proved slack) + differential correspondence check", "DESIGN.md §5 C06"),
  chk("C20",
      "Lean theorems over exact rationals, for any inverse pair Phi/PhiInv, any sqrt and any lawful generator: C20_inverse (fnr o "
      "threshold_at_fnr = id on (0,1), fpr o threshold_at_fpr = id, and both converses), C20_roc_consistent/_errors/_points, "
@@ -350,7 +352,13 @@ CHECKS = [
      "to /repo by real calls of the four band functions over all 16 combinations of supplied fnr/fpr/thresholds/nb_points, 8 "
      "axes, 4 alphas, 3 bootstrap methods, identity and 6 built-in sampler configurations (recorded _apply_rule_of_three / "
      "_aggregate_rectangles / Scores.bootstrap_ci calls; joint interval recomputed under the same seed), by direct calls of the "
-     "two helpers (incl. NaN entries), and by evaluating the Lean predicates on the implementation's own outputs.",
+     "two helpers (incl. NaN entries), and by evaluating the Lean predicates on the implementation's own outputs. roc_with_ci and "
+     "pointwise_band_ci are also modelled END TO END on the scripted RNG (SA/Model/RocCIScript.lean: support -> metric on the object -> "
+     "nb_samples consecutive bootstrap_sample runs threading one RNG state -> C13 interval per component -> rule of three -> envelope): "
+     "C16_script_refines (= rocWithCI with the script-driven interval), C16_script_state / _requests / _consumes (exactly the requests of "
+     "nb_samples sample draws, final state), C16_script_wellformed(_quantile/_bc) (for EVERY in-support script, every built-in sampler: "
+     "returns, one row per threshold, NaN-free, in [0,1], ordered), C16_script_identity; op rocciscript replays the recorded RNG "
+     "answers of real roc_with_ci / pointwise_band_ci calls through this model.",
      BASE_NOTE + "fixed_width_band_ci: the bootstrap samples are not modelled (their rates enter as the recorded arguments of "
      "_find_tube_radius); every real call is tied to the model through recorded _find_tube_radius / _displace_curve / bootstrap_ci "
      "calls (1e-9, plus a near-tie rule for containment tests decided within rounding distance) - differences in these internals "
